@@ -51,7 +51,7 @@ def area_ref(freq, col):
                 double-precision evaluation of (f2 p2 - f1 p1)/(s+1): the numerator
                 cancels to ~|s+1| ln r of its terms and s itself carries an absolute
                 error ~eps (1+|s|)/ln r
-      rel_seg = 0.55 |s+1| ln r + 16 eps (2+ln r)             when |s+1| <= 1.01e-5:
+      rel_seg = 0.55 |s+1| ln r + 16 eps (2+ln r) + 4 eps/ln r   when |s+1| <= 1.01e-5:
                 a neighbourhood of s = -1 may be evaluated with the s = -1 form
                 p1 f1 ln r, whose truncation error is (s+1) ln r / 2 (10 % margin)
     """
@@ -64,7 +64,8 @@ def area_ref(freq, col):
         s1 = abs(s + 1)
         lr = abs(lnr)
         if s1 <= mp.mpf("1.01e-5"):
-            rel = mp.mpf("0.55") * s1 * lr + 16 * EPS * (2 + lr)
+            # (ln r itself comes from the rounded quotient f2/f1: relative error eps / ln r for close frequencies)
+            rel = mp.mpf("0.55") * s1 * lr + 16 * EPS * (2 + lr) + 4 * EPS / lr
             if s1 >= mp.mpf("0.99e-5"):     # either evaluation allowed at the switch-over
                 rel = max(rel, 16 * EPS * (2 + abs(s)) * (1 + 1 / (lr * s1)))
         else:
